@@ -811,6 +811,8 @@ def collect_as_lists(
         # Translate original output names to renamed names
         renamed_values = node.map_outputs_from_original(result.values)
         for name in node.outputs:
-            if name in renamed_values:
-                collected[name].append(renamed_values[name])
+            # An item that did not produce this output (e.g. it took another
+            # branch) still occupies its position: keep every list aligned
+            # with the input combinations.
+            collected[name].append(renamed_values.get(name))
     return collected
